@@ -83,6 +83,8 @@ class Gen:
 
     def bad_key(self):
         r = self.r
+        if getattr(self, "offkeys", None) and r.chance(1, 3):
+            return r.choice(self.offkeys)          # on the curve, outside the subgroup
         k = r.below(5)
         if k == 0:
             return b"\x00" * 48
@@ -749,6 +751,15 @@ def matrix2_cases(g):
                 n += 1
                 emit(spends, [(name, "int:%d:%s" % (v.bit_length() * (1 if v >= 0 else -1), "eph" if eph else "std"))], n & 1,
                      0x10000 | (0x800000 if n & 2 else 0))
+    # keys that are not valid public keys, for every AGG_SIG opcode: off-subgroup point, infinity, not on the curve
+    badkeys = list(getattr(g, "offkeys", [])[:2]) + [b"\xc0" + b"\x00" * 47, b"\x00" * 48, b"\x8f" + b"\x11" * 47]
+    for name in AGG:
+        for bk in badkeys:
+            spends, t = fresh(False)
+            t["keys"].append(bk)
+            g.add_raw(t, name, [bk, b"msg"])
+            n += 1
+            emit(spends, [(name, "badkey:%02x" % bk[0])], n & 1, 0x10000 if n & 2 else 0)
     # message / announcement length limit
     for name in ("CREATE_COIN_ANNOUNCEMENT", "CREATE_PUZZLE_ANNOUNCEMENT", "SEND_MESSAGE", "RECEIVE_MESSAGE", "AGG_SIG_ME", "AGG_SIG_UNSAFE", "REMARK"):
         for ln in (0, 1, 32, 1023, 1024, 1025, 2048):
@@ -789,6 +800,131 @@ def matrix2_cases(g):
             b["conds"].append(g.msg_cond("RECEIVE_MESSAGE", mode if ok else mode ^ 1, msg, b, a)); b["tags"].append(("RECEIVE_MESSAGE", "mode"))
             n += 1
             emit([a, b], [("SEND_MESSAGE", "mode:%d:%d" % (mode, ok))], n & 1, 0x10000 | (0x800000 if n & 2 else 0))
+    return out
+
+
+def matrix3_cases(g):
+    """mempool eligibility flags, systematically: a spend that looks like a singleton (odd amount, re-creates its own puzzle
+    hash and amount), so that ELIGIBLE_FOR_FF and ELIGIBLE_FOR_DEDUP are set unless the condition under test clears them:
+    every opcode (valid form, counterpart in ANOTHER spend) at condition index 0 / 1 / 2, message conditions under several
+    modes in both directions, created-vs-spent amounts around equality, and the two bundle-level rules of post_process
+    (another spend naming the coin in ASSERT_CONCURRENT_SPEND; the re-created child being spent in the same bundle).
+    Both visitors (the block visitor must report no flags)."""
+    r = g.r
+    out = []
+
+    def emit(spends, tags, visitor):
+        keys = [k for s in spends for k in s["keys"]]
+        out.append({"tree": g.bundle_tree(spends), "flags": 0x10000 | (0x800000 if len(out) & 2 else 0), "visitor": visitor,
+                    "max_cost": 11000000000, "clvm_cost": 0, "tags": tags, "scenario": "matrix3", "keys": keys,
+                    "spends": spends, "std": True})
+
+    def singleton(amount=1001, create=None, parent=None):
+        a = g.new_spend(parent=parent or r.bytes(32), amount=amount)
+        a["budget"] = []
+        return a
+
+    def recreate(a, amount=None):
+        g.add_raw(a, "CREATE_COIN", [a["ph"], canon(a["amount"] if amount is None else amount)])
+
+    msg = b"flagmsg"
+    for name in OPC:
+        for pos in (0, 1, 2):
+            for visitor in (1, 0) if pos == 1 else (1,):
+                spends = []
+                if name == "ASSERT_EPHEMERAL":
+                    c = singleton(amount=2000)
+                    a = g.new_spend(parent=c["id"], amount=1001)
+                    a["budget"] = []
+                    g.add_raw(c, "CREATE_COIN", [a["ph"], canon(1001)])
+                    spends.append(c)
+                else:
+                    a = singleton()
+                b = singleton(amount=2000)
+                pre = []
+                if name == "ASSERT_COIN_ANNOUNCEMENT":
+                    g.add_raw(b, "CREATE_COIN_ANNOUNCEMENT", [msg]); args = [sha256(b["id"] + msg)]
+                elif name == "ASSERT_PUZZLE_ANNOUNCEMENT":
+                    g.add_raw(b, "CREATE_PUZZLE_ANNOUNCEMENT", [msg]); args = [sha256(b["ph"] + msg)]
+                elif name == "ASSERT_CONCURRENT_SPEND":
+                    args = [b["id"]]
+                elif name == "ASSERT_CONCURRENT_PUZZLE":
+                    args = [b["ph"]]
+                elif name in ("SEND_MESSAGE", "RECEIVE_MESSAGE"):
+                    args = None
+                elif name == "ASSERT_MY_COIN_ID":
+                    args = [a["id"]]
+                elif name == "ASSERT_MY_PARENT_ID":
+                    args = [a["parent"]]
+                elif name == "ASSERT_MY_PUZZLEHASH":
+                    args = [a["ph"]]
+                elif name == "ASSERT_MY_AMOUNT":
+                    args = [canon(a["amount"])]
+                elif name in AGG:
+                    pk = g.key(); a["keys"].append(pk); args = [pk, msg]
+                elif name == "CREATE_COIN":
+                    args = [r.choice(g.phs), canon(0)]
+                elif name in ("CREATE_COIN_ANNOUNCEMENT", "CREATE_PUZZLE_ANNOUNCEMENT"):
+                    args = [msg]
+                elif name == "RESERVE_FEE":
+                    args = [canon(0)]
+                elif name == "SOFTFORK":
+                    args = [canon(0)]
+                elif name in ("REMARK", "ASSERT_EPHEMERAL"):
+                    args = []
+                else:
+                    args = [canon(1)]
+                modes = [0b010010, 0b100100, 0b111111, 0b010100, 0b100010, 0b001001] if args is None else [None]
+                for mode in modes:
+                    a2 = dict(a); a2["conds"] = list(a["conds"]); a2["tags"] = list(a["tags"]); a2["keys"] = list(a["keys"])
+                    b2 = dict(b); b2["conds"] = list(b["conds"]); b2["tags"] = list(b["tags"]); b2["keys"] = list(b["keys"])
+                    fill = [("REMARK", []), ("CREATE_COIN", None)]
+                    seq = []
+                    for i in range(pos):
+                        seq.append(fill[i % 2] if pos == 2 else fill[1])
+                    seq.append((name, args))
+                    if not any(x[0] == "CREATE_COIN" and x[1] is None for x in seq):
+                        seq.append(("CREATE_COIN", None))
+                    for (nm, ar) in seq:
+                        if nm == "CREATE_COIN" and ar is None:
+                            recreate(a2)
+                        elif nm in ("SEND_MESSAGE", "RECEIVE_MESSAGE") and ar is None:
+                            other = "RECEIVE_MESSAGE" if nm == "SEND_MESSAGE" else "SEND_MESSAGE"
+                            a2["conds"].append(g.msg_cond(nm, mode, msg, a2, b2)); a2["tags"].append((nm, "flag"))
+                            b2["conds"].append(g.msg_cond(other, mode, msg, b2, a2)); b2["tags"].append((other, "flag"))
+                        else:
+                            g.add_raw(a2, nm, ar)
+                    emit(spends + [a2, b2], [(name, "flags:pos%d:mode%s" % (pos, mode))], visitor)
+    # created vs spent amount around equality (dedup), and even amounts (ff)
+    for amount in (1001, 1000, 1, 0):
+        for delta in (-1, 0, 1):
+            if amount + delta < 0:
+                continue
+            a = singleton(amount=amount)
+            recreate(a, amount + delta)
+            b = singleton(amount=5)
+            emit([a, b], [("CREATE_COIN", "flags:amount:%d:%d" % (amount, delta))], 1)
+    # split outputs: same puzzle hash but the amount split over two coins (no singleton output)
+    a = singleton(amount=1001)
+    g.add_raw(a, "CREATE_COIN", [a["ph"], canon(1000)]); g.add_raw(a, "CREATE_COIN", [r.choice(g.phs), canon(1)])
+    emit([a], [("CREATE_COIN", "flags:split")], 1)
+    # post_process rule 1: another spend (before / after) asserts concurrency with this coin
+    for order in (0, 1):
+        a = singleton(); recreate(a)
+        b = singleton(amount=2000)
+        g.add_raw(b, "ASSERT_CONCURRENT_SPEND", [a["id"]])
+        emit([a, b] if order == 0 else [b, a], [("ASSERT_CONCURRENT_SPEND", "flags:names-singleton:%d" % order)], 1)
+    # post_process rule 2: the re-created child is spent in the same bundle (before / after its parent in the list)
+    for order in (0, 1):
+        a = singleton(); recreate(a)
+        d = g.new_spend(parent=a["id"], ph=a["ph"], amount=a["amount"]); d["budget"] = []
+        recreate(d)
+        emit([a, d] if order == 0 else [d, a], [("CREATE_COIN", "flags:child-spent:%d" % order)], 1)
+    # a child with another amount / puzzle hash is spent: the rule must NOT fire for the singleton output
+    a = singleton(); recreate(a); other_ph = r.choice(g.phs)
+    g.add_raw(a, "CREATE_COIN", [other_ph, canon(0)])
+    d = g.new_spend(parent=a["id"], ph=other_ph, amount=0); d["budget"] = []
+    emit([a, d], [("CREATE_COIN", "flags:other-child-spent")], 1)
     return out
 
 
